@@ -29,7 +29,7 @@ REQUIRED = ("seeded_truncated_cache_situations", "seeded_own_truncated_cache_sit
             "bytecode_on_definitions", "bytecode_off_definitions", "earlier_classes_reprobed", "option_only_switches")
 MIN_NONTRIVIAL = 20
 RULE = {
-    "quick": "8 shards x 8 histories of 4-7 steps over a pool of 12 designed + 4 generated variants of one same-named class (each define in a real "
+    "quick": "8 shards x 20 histories of 4-7 steps over a pool of 12 designed + 4 generated variants of one same-named class (each define in a real "
              "child process, several defines per process when 'same process'). Non-trivial = a define step that follows a different variant or a "
              "tamper action; distinct = (previous variant kind -> variant kind, process mode, bytecode, tamper, cache hit/rewrite).",
     "thorough": "16 shards x 90 histories of 4-9 steps, 16 generated variants per shard.",
@@ -376,7 +376,7 @@ def run(run):
     pool = designed_variants(rng) + generated_variants(rng, 4 if quick else 16)
     run.count("variants_in_pool", len(pool))
     sources = {}
-    nhist = 8 if quick else 90
+    nhist = 20 if quick else 90
     for h in range(nhist):
         nsteps = rng.randint(4, 7 if quick else 9)
         run_history(run, rng, pool, scratch, h, sources, nsteps)
